@@ -498,8 +498,12 @@ class AccumulatedDerivative:
     #   Q_(-i, 0) being applied to Q_(-j, n) (following the notation in the paper)
     #   s.t. Q_(-i, 0) Q_(-j, n) = Q(k,l)
     def __call__(self, i):
-        keys = [(i + j, compute_l(-i, 0, -j, n)) for j, n in self._keys]
-        return AccumulatedDerivative(elements=dict(zip(keys, self._fp_values)), f_value=self.f_value)
+        elements = {}
+        for (j, n), x in zip(self._keys, self._fp_values):
+            # distinct elements can be shifted onto the same basis element, e.g. (x + x(1)(-1))(1): sum them
+            k = (i + j, compute_l(-i, 0, -j, n))
+            elements[k] = elements.get(k, 0.) + x
+        return AccumulatedDerivative(elements=elements, f_value=self.f_value)
 
     def apply(self, f, h=1e-5, **kwargs):
         if f == np.log:
